@@ -1,5 +1,7 @@
 import JediModel.Gen.C11
 import JediModel.Lemmas.Call
+import JediModel.Lemmas.CallArgs
+set_option linter.unusedSimpArgs false
 /-! # C11 — signatures and docstrings mirror the definition; index locates the argument
 
 Property theorems only (helper lemmas live in `Lemmas/Call.lean`).
@@ -168,6 +170,119 @@ theorem bound_star_args_witness :
       [⟨['k'], none, some ['1']⟩], none⟩)) ≠
       (pyBound ⟨[], [], some ⟨['a', 'r', 'g', 's'], none, none⟩, [⟨['k'], none, some ['1']⟩], none⟩).params := by
   decide
+
+/-! ## the argument scan and `index` -/
+
+/-- `_iter_arguments` on the nodes of a call prefix yields exactly one triple per complete
+argument (positional ↦ `(0, '', False)`, `n=…` ↦ `(0, n, True)`, `*e`/`**e` ↦ `(k, name|None, False)`)
+and one for the argument under the cursor -/
+theorem arg_triples_closed_form (prev : List Arg) (cur : Cur) :
+    argTriples prev cur = prev.map Arg.triple ++ [cur.triple] :=
+  argTriples_eq prev cur
+
+/-- the current argument is unambiguous for Python: a non-name expression (positional) or
+`name=` / `name=value` with the cursor behind the `=` -/
+def Cur.exact : Cur → Option CArg
+  | .expr => some .pos
+  | .kwOpen n => some (.kw n)
+  | .kwArg n _ true => some (.kw n)
+  | _ => none
+
+/- FULL (false, see `index_H1_witness`, `index_H2_witness`):
+   theorem index_eq_pyBind … (no hypotheses `h1`, `h2`) -/
+
+/-- `index` is the parameter CPython binds the argument under the cursor to – for every valid
+parameter list with distinct names, every well-formed prefix (positional arguments `es`, then
+distinct keywords `kws`, no `*e`/`**e`) and every unambiguous current argument:
+k-th positional, overflow into `*args`, keyword by exact name, positional-only name or unknown
+name by keyword ⇒ `**kwargs` or none.
+`h1` (F17): not (positional argument, no slot, no `*args`, but a keyword-only parameter or `**kwargs`).
+`h2` (F18): not (keyword naming a parameter already filled positionally while `**kwargs` exists). -/
+theorem index_eq_pyBind_partial (s : Sig) (es : List Expr) (kws : List Str) (cur : Cur) (c : CArg)
+    (hcur : Cur.exact cur = some c)
+    (hnd : ((s.pk ++ s.ko).map P.name).Nodup)
+    (hpos : c = .pos → kws = []) (hkw : ∀ n, c = .kw n → n ∉ kws)
+    (h1 : c = .pos → es.length < s.po.length + s.pk.length ∨ s.vp.isSome ∨ (s.ko = [] ∧ s.vk = none))
+    (h2 : ∀ n j, c = .kw n → optIdx (s.pk.map P.name) n = some j → s.po.length + j < es.length →
+      s.vk = none) :
+    calculateIndex s.params (argTriples (es.map Arg.pos ++ kws.map Arg.kw) cur) =
+      pyBind s (List.replicate es.length .pos ++ kws.map .kw) c := by
+  rw [argTriples_eq, List.map_append, map_pos_triple, List.append_assoc]
+  have hk : (kws.map Arg.kw).map Arg.triple = kws.map (fun k => CArg.triple (.kw k)) := by
+    simp [Arg.triple, CArg.triple]
+  rw [hk]
+  cases c with
+  | pos =>
+    have ht : cur.triple = CArg.triple .pos := by
+      cases cur <;> simp [Cur.exact] at hcur <;> first | rfl | (rename_i b; cases b <;> simp [Cur.exact] at hcur)
+    have := hpos rfl
+    subst this
+    rw [ht]
+    exact calcIndex_pos s es.length (h1 rfl)
+  | kw n =>
+    have ht : cur.triple = CArg.triple (.kw n) := by
+      cases cur <;> simp [Cur.exact] at hcur
+      · rename_i m cut b
+        cases b <;> simp [Cur.exact] at hcur
+        subst hcur; rfl
+      · subst hcur; rfl
+    rw [ht]
+    exact calcIndex_kw s es.length kws n hnd (hkw n rfl) (fun j hj hlt => h2 n j rfl hj hlt)
+
+example : ∃ (s : Sig) (es : List Expr) (kws : List Str) (cur : Cur) (c : CArg),
+    Cur.exact cur = some c ∧ ((s.pk ++ s.ko).map P.name).Nodup ∧ es ≠ [] ∧ kws ≠ [] ∧
+    (∀ n, c = .kw n → n ∉ kws) ∧ optIdx (s.pk.map P.name) ['k'] = none :=
+  ⟨⟨[⟨['u'], none, none⟩], [⟨['v'], none, none⟩], none, [⟨['k'], none, none⟩], some ⟨['w'], none, none⟩⟩,
+    [.other], [['v']], .kwOpen ['k'], .kw ['k'], rfl, by decide, by decide, by decide,
+    by intro n h; cases h; decide, by decide⟩
+
+/-- F17 / H1, kernel-checked: `def f(*, a)` / `f(2` – jedi says index 0, Python binds to none -/
+theorem index_H1_witness :
+    calculateIndex (Sig.params ⟨[], [], none, [⟨['a'], none, none⟩], none⟩) (argTriples [] .expr) = some 0 ∧
+    pyBind ⟨[], [], none, [⟨['a'], none, none⟩], none⟩ [] .pos = none := by decide
+
+/-- F18 / H2, kernel-checked: `def f(a, **b)` / `f(1, a=` – jedi says index 1 (`**b`), Python
+raises "multiple values for argument 'a'" -/
+theorem index_H2_witness :
+    calculateIndex (Sig.params ⟨[], [⟨['a'], none, none⟩], none, [], some ⟨['b'], none, none⟩⟩)
+      (argTriples [.pos .other] (.kwOpen ['a'])) = some 1 ∧
+    pyBind ⟨[], [⟨['a'], none, none⟩], none, [], some ⟨['b'], none, none⟩⟩ [.pos] (.kw ['a']) = none := by
+  decide
+
+/-- after a complete `*e` argument nothing is assumed about its length: the first `*args`
+parameter, else the positional parameter with as many predecessors as there were plain
+positional arguments – the scan simply skips starred arguments when counting
+(characterisation, no Python ground truth) -/
+theorem index_spec_star (pre : List Triple) (k : Nat) (key : Option Str)
+    (last : Triple) (hk : k ≠ 0) :
+    (scanArgs (⟨k, key, false⟩ :: pre ++ [last])).2.1 = (scanArgs (pre ++ [last])).2.1 ∧
+    (scanArgs (⟨k, key, false⟩ :: pre ++ [last])).2.2 = (scanArgs (pre ++ [last])).2.2 := by
+  simp [scanArgs, hk]
+
+/-- a bare name under the cursor and no keyword before it: when a positional slot is left the
+answer is that slot (the name is read as a positional expression), exactly as for a non-name
+expression -/
+theorem index_spec_prefix (s : Sig) (npos : Nat) (name : Str) (cut : Nat)
+    (hslot : npos < s.po.length + s.pk.length) :
+    calculateIndex s.params (List.replicate npos (CArg.triple .pos) ++ [(Cur.name name cut).triple]) =
+      some npos := by
+  obtain ⟨po, pk, vp, ko, vk⟩ := s
+  unfold calculateIndex
+  have e : List.replicate npos (CArg.triple .pos) ++ [(Cur.name name cut).triple] =
+      List.replicate npos (⟨0, some [], false⟩ : Triple) ++
+        (([] : List Str).map (fun n => (⟨0, some n, true⟩ : Triple)) ++ [(Cur.name name cut).triple]) := by
+    simp [CArg.triple]
+  rw [e, ← List.append_assoc, List.getLast?_concat, List.append_assoc, scan_wf npos [] _ rfl]
+  simp only [Sig.params, Cur.triple, List.isEmpty_nil, Bool.not_true, Bool.or_self]
+  rw [indexLoop_append, indexLoop_append, indexLoop_append, indexLoop_append]
+  rw [il_pos_seg npos _ .posOnly (Or.inl rfl) po 0 (by omega)]
+  simp only [Nat.zero_add, List.length_append, List.length_map]
+  by_cases hpo : npos < po.length
+  · simp [hpo]
+  · simp only [hpo, if_false]
+    rw [il_pos_seg npos _ .posOrKw (Or.inr rfl) pk po.length (by omega)]
+    simp only at hslot
+    simp [hslot]
 
 /-! ## docstring assembly -/
 
